@@ -70,6 +70,10 @@ func alphaTrafficRoutings() [][]v1alpha1.TrafficRoutingRef {
 		{{Service: "svc", Gateway: &v1alpha1.GatewayTrafficRouting{}}},
 		{{Service: "svc", CustomNetworkRefs: []v1alpha1.CustomNetworkRef{{APIVersion: "networking.istio.io/v1alpha3", Kind: "VirtualService", Name: "vs"}, {APIVersion: "networking.istio.io/v1alpha3", Kind: "DestinationRule", Name: "dr"}}}},
 		{{Service: "svc", Ingress: &v1alpha1.IngressTrafficRouting{Name: "ing"}}, {Service: "svc2", GracePeriodSeconds: 3, Gateway: &v1alpha1.GatewayTrafficRouting{HTTPRouteName: utilpointer.String("r2")}}},
+		// one reference naming several providers at once (they run together as a composite provider)
+		{{Service: "svc", Ingress: &v1alpha1.IngressTrafficRouting{Name: "ing"}, Gateway: &v1alpha1.GatewayTrafficRouting{HTTPRouteName: utilpointer.String("route")}}},
+		{{Service: "svc", Ingress: &v1alpha1.IngressTrafficRouting{Name: "ing"}, CustomNetworkRefs: []v1alpha1.CustomNetworkRef{{APIVersion: "networking.istio.io/v1alpha3", Kind: "VirtualService", Name: "vs"}}}},
+		{{Service: "svc", Gateway: &v1alpha1.GatewayTrafficRouting{HTTPRouteName: utilpointer.String("route")}, CustomNetworkRefs: []v1alpha1.CustomNetworkRef{{APIVersion: "networking.istio.io/v1alpha3", Kind: "VirtualService", Name: "vs"}}}},
 	}
 }
 
@@ -641,6 +645,10 @@ func betaTrafficRoutings() [][]v1beta1.TrafficRoutingRef {
 		{{Service: "svc", GracePeriodSeconds: 7, Ingress: &v1beta1.IngressTrafficRouting{ClassType: "higress", Name: "ing"}}},
 		{{Service: "svc", Gateway: &v1beta1.GatewayTrafficRouting{HTTPRouteName: utilpointer.String("route")}}},
 		{{Service: "svc", GracePeriodSeconds: 2, CustomNetworkRefs: []v1beta1.ObjectRef{{APIVersion: "networking.istio.io/v1alpha3", Kind: "VirtualService", Name: "vs"}}}},
+		// one reference naming several providers at once (they run together as a composite provider)
+		{{Service: "svc", Ingress: &v1beta1.IngressTrafficRouting{Name: "ing"}, Gateway: &v1beta1.GatewayTrafficRouting{HTTPRouteName: utilpointer.String("route")}}},
+		{{Service: "svc", Ingress: &v1beta1.IngressTrafficRouting{Name: "ing"}, CustomNetworkRefs: []v1beta1.ObjectRef{{APIVersion: "networking.istio.io/v1alpha3", Kind: "VirtualService", Name: "vs"}}}},
+		{{Service: "svc", Gateway: &v1beta1.GatewayTrafficRouting{HTTPRouteName: utilpointer.String("route")}, CustomNetworkRefs: []v1beta1.ObjectRef{{APIVersion: "networking.istio.io/v1alpha3", Kind: "VirtualService", Name: "vs"}}}},
 	}
 }
 
